@@ -52,8 +52,8 @@ def rand_http_sig(R):
             hs.append("%s=[%s]" % (name, val))
         else:
             hs.append("")
-    absent = ",".join(R.sample(HDR_NAMES, R.randint(0, 3)))
-    sw = R.choice(["", "Firefox/", "MSIE 8", "Apache", "curl/", "nginx/1."])
+    absent = ",".join(R.sample(HDR_NAMES, R.randint(0, 3)) + ([R.choice(["\u00dc-Tag", "X-\u212aelvin", "\u0130d", "x-\u00e9t\u00c9"])] if R.random() < 0.1 else []))
+    sw = R.choice(["", "Firefox/", "MSIE 8", "Apache", "curl/", "nginx/1.", " Chrom", "M\u00f6z"])
     return ":".join([ver, ",".join(hs), absent, sw])
 
 
